@@ -633,7 +633,20 @@ impl Gen {
                 if w.ops[&k].write {
                     if self.rng.chance(2, 3) {
                         self.stat("commit");
-                        format!("commit {k} {y}")
+                        // commit on a remote endpoint, then cut its connection almost at once: a commit
+                        // that returned Ok must be visible afterwards
+                        let e = w.handles[w.ops[&k].handle].ep;
+                        if e != 0 && w.ep_alive(e) && self.rng.chance(1, 4) {
+                            w.exec(&format!("commit {k} 0")).await;
+                            let y = self.rng.below(4);
+                            if y > 0 {
+                                w.exec(&format!("yield {y}")).await;
+                            }
+                            self.stat("kill");
+                            format!("kill {e}")
+                        } else {
+                            format!("commit {k} {y}")
+                        }
                     } else {
                         self.stat("wdrop");
                         format!("wdrop {k} {y}")
